@@ -1,4 +1,4 @@
-(** Soundness of the lock discipline: a table that passes [check_discipline] admits no
+(** Soundness of the lock discipline: a table that passes [check_discipline] has no
     reachable race, for every number of threads and every interleaving. *)
 From Coq Require Import List Bool Arith String.
 Import ListNotations.
